@@ -138,11 +138,11 @@ def _convex(case, rec):
 
 def clauses():
     return [
-        Clause("convex_measures", _case(30), _convex, quick=1200, thorough=30000,
+        Clause("convex_measures", _case(30), _convex, quick=3600, thorough=30000,
                rule="see RULE", floors={"lattice": 0.08, "offset>=1": 0.2, "nontriangular": 0.3, "reordered": 0.5}),
-        Clause("convex_measures_large", _case(60), _convex, quick=160, thorough=6000,
+        Clause("convex_measures_large", _case(60), _convex, quick=480, thorough=6000,
                rule="same with up to 60 vertices", floors={}),
-        Clause("convex_measures_extreme_scale", _case(20, 8.0), _convex, quick=400, thorough=8000,
+        Clause("convex_measures_extreme_scale", _case(20, 8.0), _convex, quick=1200, thorough=8000,
                rule="same with uniform scale 10^U(-8,8) (tolerances are scale-free)", floors={}),
     ]
 
